@@ -3,6 +3,7 @@ import Falcon.Gen.Params
 import Mathlib.Tactic.Ring
 import Mathlib.Tactic.FieldSimp
 import Falcon.Lemmas.FfSamplingExact
+import Falcon.Lemmas.SignRefine
 
 /-!
 # C10 — signatures are spherical Gaussian: the exact-field identities behind it
@@ -120,5 +121,15 @@ example : Good (fun _ => (1 : ℚ)) 0 ⟨[2, 2], [0, 0], [0, 0], [3, 3]⟩ := by
   refine ⟨rfl, rfl, rfl, rfl, ?_, ?_, ?_, ?_⟩ <;> intro j hj <;> interval_cases j <;> simp [at']
 
 end FullDepth
+
+/-- the recursion that the signing model runs with `sampler_z` at the leaves (`SignFlt.ffsamplingR`: compared byte for
+    byte with the real `sign`) IS the generic `ffsampling` about which the identity above is proved, applied to the
+    integers the sampler returned — for every tree, target and stream (no arithmetic is involved: the two definitions
+    perform the same operations) -/
+theorem signing_recursion_is_the_generic_one (chk : Bool) (sigmin : Float) (tree : FfS.Tree FftFlt.C)
+    (t0 t1 : List FftFlt.C) (st : List Nat) (z0 z1 : List FftFlt.C) (st' : List Nat) (zs : List Int)
+    (h : SignFlt.ffsamplingR chk sigmin tree t0 t1 st = .ok (some (z0, z1, st', zs))) (rest : List FftFlt.C) :
+    FfS.ffsampling FfS.cfops FftFlt.T FftFlt.TI tree t0 t1 (FfS.ofInts zs ++ rest) = (z0, z1, rest) :=
+  SignFlt.ffsamplingR_generic chk sigmin tree t0 t1 st z0 z1 st' zs h rest
 
 end Falcon.Props.C10
